@@ -4,6 +4,7 @@
 import logging
 
 import numpy as np
+from scipy.sparse.linalg import ArpackError, ArpackNoConvergence
 
 from ..tools.misc import argsort
 from ..tools.params import asConfig
@@ -850,7 +851,14 @@ def lanczos_arpack(H, psi, options={}):
     H_flat, psi_flat = FlatHermitianOperator.from_guess_with_pipe(H.matvec, psi, dtype=H.dtype)
     tol = options.get('P_tol', 1.0e-14, 'real')
     N_min = options.get('N_min', None, int)
-    Es, Vs = H_flat.eigenvectors(num_ev=1, which='SA', v0=psi_flat, tol=tol, ncv=N_min)
+    try:
+        Es, Vs = H_flat.eigenvectors(num_ev=1, which='SA', v0=psi_flat, tol=tol, ncv=N_min)
+    except ArpackNoConvergence:
+        raise
+    except ArpackError:
+        # ARPACK first applies `H` to the start vector and refuses to start ("Starting vector is zero") if the
+        # result vanishes, i.e. if `psi` is an eigenvector with eigenvalue 0: let ARPACK choose the start vector.
+        Es, Vs = H_flat.eigenvectors(num_ev=1, which='SA', tol=tol, ncv=N_min)
     psi0 = Vs[0].split_legs(0).itranspose(psi.get_leg_labels())
     return Es[0], psi0
 
